@@ -478,13 +478,14 @@ impl Transport for QuicTransport {
 
             while let Some(result) = futures.next().await {
                 match result {
-                    Ok((address, stream)) =>
+                    Ok((address, stream)) => {
                         return RawConnectionResult::Connected {
                             connection_id,
                             address,
                             stream,
                             errors,
-                        },
+                        }
+                    }
                     Err(error) => {
                         tracing::debug!(
                             target: LOG_TARGET,
